@@ -219,6 +219,28 @@ class Prop(core.Prop):
             except Exception as e:
                 vs.append(viol('inverse-raises', ('date2num', 'cf', cc), '%s: %r' % (type(e).__name__, e),
                                **scope))
+        if not vs and mode in ('vector', 'bounds-var') and tdt == 'd' and len(want) >= 3 and wanterr is None:
+            # the stored numbers are edited in place (interior values only: first, last, length, units and
+            # calendar stay as they were) and decoded again: the answer follows the file, not an earlier decode
+            try:
+                if mode == 'vector':
+                    tv[1:-1] = np.asarray(tv[1:-1]) + 0.25
+                    enc2 = np.asarray(tv[:], 'd')
+                else:
+                    tb[1:-1, :] = np.asarray(tb[1:-1, :]) + 0.25
+                    enc2 = np.append(np.asarray(tb[:, 0], 'd'), float(tb[-1, 1]))
+                    # (the edges of neighbouring cells no longer meet; the closing edge of every cell but the
+                    # last is not returned, so only begins + the last end are compared)
+                got2 = [rtime.tuple_of(t) for t in f.getTimes(bounds=mode.startswith('bounds'))]
+                want2 = [rtime.cf_decode(float(v), unit, refx, cal) for v in enc2]
+                if got2 != want2:
+                    k_ = next(i for i, (a_, b_) in enumerate(zip(got2, want2)) if a_ != b_) if len(got2) == len(want2) else -1
+                    vs.append(viol('stale-after-edit', sig, '%s: after editing the stored numbers in place element %d '
+                                   'decodes to %r, the file says %r' % (units, k_, got2[k_] if k_ >= 0 else len(got2),
+                                                                        want2[k_] if k_ >= 0 else len(want2)), **scope))
+            except Exception as e:
+                vs.append(viol('stale-after-edit', sig, 'decoding after an in-place edit raised %s: %r'
+                               % (type(e).__name__, e), **scope))
         return result('viol' if vs else 'ok-cf', vs, st, 1, h64('cf', units, cal, mode, tdt),
                       h64(repr(gott)) if not vs else None)
 
